@@ -96,7 +96,9 @@ class FakeSock(socket.socket):
         return -1
 
     def fileno(self):
-        return -1
+        # like a real socket: a descriptor number while open, -1 once closed (code under test may ask, e.g. the
+        # Client's guard against writes that arrive after the disconnect)
+        return -1 if self.is_closed else devnull_fd()
 
     def getsockname(self):
         return ('127.0.0.1', 8000)
